@@ -1,0 +1,15 @@
+//go:build verif
+
+package tracer
+
+// Contracts for the gowp verifier (/verif). Comment-only file.
+
+//@ props C08
+//@ func V
+//@   ensures result.verbosity >= 1 && result.verbosity <= 3
+
+// Trace hands the message closure to the package's printer goroutine through a buffered channel.
+// Assumed: it touches nothing a caller can observe (the closure runs later, on another goroutine,
+// and only formats text).
+//@ func (t MessageTracer) Trace
+//@   trusted enqueues an event for the background printer; no caller-visible effect
